@@ -93,12 +93,15 @@ CouponList<A>* CouponList<A>::newList(const void* bytes, size_t len, const A& al
 
   target_hll_type tgtHllType = HllSketchImpl<A>::extractTgtHllType(data[hll_constants::MODE_BYTE]);
 
-  const uint8_t lgK = data[hll_constants::LG_K_BYTE];
+  const uint8_t lgK = HllUtil<A>::checkLgK(data[hll_constants::LG_K_BYTE]);
   const bool compact = ((data[hll_constants::FLAGS_BYTE] & hll_constants::COMPACT_FLAG_MASK) ? true : false);
   const bool oooFlag = ((data[hll_constants::FLAGS_BYTE] & hll_constants::OUT_OF_ORDER_FLAG_MASK) ? true : false);
   const bool emptyFlag = ((data[hll_constants::FLAGS_BYTE] & hll_constants::EMPTY_FLAG_MASK) ? true : false);
 
   const uint32_t couponCount = data[hll_constants::LIST_COUNT_BYTE];
+  if (couponCount > (1U << hll_constants::LG_INIT_LIST_SIZE)) {
+    throw std::invalid_argument("Possible corruption: coupon count exceeds the list capacity: " + std::to_string(couponCount));
+  }
   const uint32_t couponsInArray = (compact ? couponCount : (1 << HllUtil<A>::computeLgArrInts(LIST, couponCount, lgK)));
   const size_t expectedLength = hll_constants::LIST_INT_ARR_START + (couponsInArray * sizeof(uint32_t));
   if (len < expectedLength) {
@@ -141,7 +144,7 @@ CouponList<A>* CouponList<A>::newList(std::istream& is, const A& allocator) {
 
   const target_hll_type tgtHllType = HllSketchImpl<A>::extractTgtHllType(listHeader[hll_constants::MODE_BYTE]);
 
-  const uint8_t lgK = listHeader[hll_constants::LG_K_BYTE];
+  const uint8_t lgK = HllUtil<A>::checkLgK(listHeader[hll_constants::LG_K_BYTE]);
   const bool compact = ((listHeader[hll_constants::FLAGS_BYTE] & hll_constants::COMPACT_FLAG_MASK) ? true : false);
   const bool oooFlag = ((listHeader[hll_constants::FLAGS_BYTE] & hll_constants::OUT_OF_ORDER_FLAG_MASK) ? true : false);
   const bool emptyFlag = ((listHeader[hll_constants::FLAGS_BYTE] & hll_constants::EMPTY_FLAG_MASK) ? true : false);
@@ -151,6 +154,9 @@ CouponList<A>* CouponList<A>::newList(std::istream& is, const A& allocator) {
   using coupon_list_ptr = std::unique_ptr<CouponList<A>, std::function<void(HllSketchImpl<A>*)>>;
   coupon_list_ptr ptr(sketch, sketch->get_deleter());
   const uint32_t couponCount = listHeader[hll_constants::LIST_COUNT_BYTE];
+  if (couponCount > (1U << hll_constants::LG_INIT_LIST_SIZE)) {
+    throw std::invalid_argument("Possible corruption: coupon count exceeds the list capacity: " + std::to_string(couponCount));
+  }
   sketch->couponCount_ = couponCount;
   sketch->putOutOfOrderFlag(oooFlag); // should always be false for LIST
 
